@@ -58,7 +58,10 @@ def run_replay_case(case):
     s.call("rejection", path=case["path"], nprior=case["nprior"], maxpost=case["maxpost"], nlinear=case["nlinear"],
            randomize=not ident, logprobs=True, all=True, nbatches=case["nbatches"])
     t = s.trace(case["id"])
-    t["expected_rows"] = case["rows"]
+    # the behaviour is only reproduced when the scripted order and uniforms reached the sampler through the generator calls the
+    # harness can script; a sampler that draws them differently is judged by the monitor alone (expected_rows = None)
+    applied = (ident or s.rec.choice_script_used) and s.rec.uscript_used
+    t["expected_rows"] = case["rows"] if applied else None
     shutil.rmtree(wd, ignore_errors=True)
     return t
 
@@ -161,11 +164,14 @@ def run(ctx, selftest=False, families=FAMILIES, quick_replay=700, quick_random=2
     ctx.notes["behaviours_replayed"] = len(cases)
     ctx.exhaustive = False
     traces = core.pmap(run_replay_case, cases, chunksize=8)
-    mism = 0
+    mism = napp = 0
     for t in traces:
         ctx.count()
         ret = [e for e in t["events"] if e["ev"] == "Return"][-1]
         exp = t.pop("expected_rows")
+        if exp is None:
+            napp += 1
+            continue
         if ret["raised"] or ret["rows"] != exp:
             mism += 1
             t2 = dict(t); t2["spec_rows"] = exp
@@ -173,6 +179,7 @@ def run(ctx, selftest=False, families=FAMILIES, quick_replay=700, quick_random=2
         if len(exp) > 0 and t["events"][0]["N"] > 1:
             ctx.nontrivial(_profile_key(t))
     ctx.notes["replay_mismatches"] = mism
+    ctx.notes["replays_not_applicable_scripts_did_not_reach_the_sampler"] = napp
     rc = random_cases(ctx, rnd, quick_random if quick else 2500, 200 if quick else 2000)
     rtraces = core.pmap(run_random_case, rc, chunksize=4)
     for t in rtraces:
